@@ -214,7 +214,7 @@ func secretKeyResponseFieldRuleFor(P *Program, R *Report, rule string) {
 		for _, r := range returnsOf(skr) {
 			// a returned nil ("no such response") is not a field; a value returned through a comma-ok
 			// lookup or a phi is described by its non-nil leaves
-			for d := range phiLeaves(r.Results[0]) {
+			for d := range phiLeaves(retValue(r, 0)) {
 				if d != "nil" && !retSet[d] {
 					retSet[d] = true
 					rets = append(rets, d)
@@ -394,7 +394,7 @@ func sharedRandomizerRule(P *Program, R *Report) {
 			if !ok || desc(mu.Key) != idx {
 				return
 			}
-			if _, isMake := mu.Map.(*ssa.MakeMap); !isMake {
+			if _, isMake := origin(mu.Map).(*ssa.MakeMap); !isMake {
 				return
 			}
 			t := be.Use[mu][mu.Value]
